@@ -79,9 +79,11 @@ def main():
         ok_props, out, build_s = C.lake_build(modules)
         if not ok_props:
             build_log += out
+    model_broken = None
     if not ok_drv:
         # The model itself no longer elaborates against the regenerated tables.
         ctx.notes.append('driver/model build failed')
+        model_broken = build_log[-1500:]
 
     # ---- 2. audit ---------------------------------------------------------------
     required = list(mod.THEOREMS)
@@ -111,6 +113,8 @@ def main():
             discharged.append(fq)
     if forb:
         undischarged.append(('source-scan', '; '.join(forb[:5])))
+    if model_broken:
+        undischarged.append(('model-build', 'the executable model / driver does not build: ' + model_broken))
 
     checker_cmd = f'cd lean && lake build {" ".join(modules)} && lake env lean <#audit_ns Mwp.Props.{prop}>'
     leancheck = None
